@@ -109,7 +109,11 @@ class Check:
         results = []
         # corpus
         for f in sorted(glob.glob(os.path.join(VERIF, "corpus", "*.ops"))):
-            trace, out = execute_replay(open(f).read(), "corpus")
+            try:
+                trace, out = execute_replay(open(f).read(), "corpus")
+            except RuntimeError as e:
+                self.corpus_crash(f, str(e))      # the driver died on a corpus history: that history is the replay
+                continue
             results.append((trace, out, None, "corpus:" + os.path.basename(f)))
         # random campaigns, one process per slice
         plan = self.cfg["campaign"][self.tier]
@@ -222,6 +226,22 @@ class Check:
                                 % ("re-run confirmed the hang" if confirmed else "hang NOT reproduced on re-run", body))
         self.problems.append(("monitor", "a call into the library did not return (profile %s seed %d)" % (profile, seed)))
         self.violations.append({"replay": path, "signature": sig, "why": "deadlock"})
+
+    def corpus_crash(self, f, err):
+        """The driver process died while it executed a history of the corpus (scenarios that the unmodified code accepts)."""
+        name = os.path.basename(f)
+        panic = [l for l in err.splitlines() if l.startswith("PANIC ")]
+        why = (panic[0] if panic else err[-200:]).strip()
+        for leftover in glob.glob(os.path.join(WORK, "corpus.%d.ops*" % os.getpid())):
+            os.unlink(leftover)
+        if "C13" in set(self.cfg.get("monitors", [])):
+            body = "".join(l for l in open(f) if not l.startswith("#"))
+            path = self.save_replay("%s-corpus-%s" % (self.prop, name),
+                                    "# C13: the process died inside a call into the library: %s\n# replay: tools/replay.sh <this file>\n%s" % (why, body))
+            self.problems.append(("monitor", "the process died inside a call into the library on corpus history %s: %s" % (name, why)))
+            self.violations.append({"replay": path, "signature": "corpus-crash:" + name, "why": why})
+        else:
+            self.problems.append(("infra", "drive crashed on corpus history %s: %s" % (name, err[-300:])))
 
     def crashed(self, journal, profile, seed, err, rc=1):
         """The driver process died (a panic that cannot unwind aborts it; an invalid free or a wild pointer ends it
